@@ -320,9 +320,17 @@ def match(cur: dict, ref: dict) -> Tuple[Dict[str, str], dict]:
                         sc = 0.5 * sc + 0.5 * _jaccard(ru, cc)
                     table[(old, new)] = sc
             got = set()
+            # candidates that are used alike are told apart by how they are spelled (a renamed identifier usually keeps part of its name):
+            # the spelling never makes a pair acceptable, it only decides between pairs that already are
+            import difflib
+            lexed = {k: sc + 0.3 * difflib.SequenceMatcher(None, k[0], k[1]).ratio() for k, sc in table.items()}
             for (old, new), sc in table.items():
                 row = max([s for (a, b), s in table.items() if a == old and b != new] or [0.0])
                 col = max([s for (a, b), s in table.items() if b == new and a != old] or [0.0])
+                if sc >= ACCEPT and not (sc - row >= MARGIN and sc - col >= MARGIN):
+                    me = lexed[(old, new)]
+                    row = max([lexed[(a, b)] for (a, b) in table if a == old and b != new and table[(a, b)] >= ACCEPT] or [0.0]) - (me - sc)
+                    col = max([lexed[(a, b)] for (a, b) in table if b == new and a != old and table[(a, b)] >= ACCEPT] or [0.0]) - (me - sc)
                 if sc >= ACCEPT and sc - row >= MARGIN and sc - col >= MARGIN:
                     proposals.setdefault(new, {}).setdefault(old, []).append((sc, scope))
                     got |= {old, new}
@@ -414,7 +422,7 @@ def _locals_clash(trees, back) -> set:
 def canonicalise(trees: Dict[str, ast.AST], mode: str = "auto") -> Tuple[Dict[str, str], dict]:
     """rename, in place, the identifiers of `trees` (rel path -> ast.Module) back to the reference names; -> (mapping new->old, diagnostics)
     mode: auto = every accepted pair; attrs = attributes / variables only (functions and classes keep their names); none = nothing"""
-    if mode == "none" or not os.path.exists(REF):
+    if mode == "none" or not os.path.exists(REF):  # noqa
         return {}, {"note": "no reference_names.json"}
     lib = {k: t for k, t in trees.items() if not _is_test(k)}
     cur = survey(lib)
@@ -422,6 +430,11 @@ def canonicalise(trees: Dict[str, ast.AST], mode: str = "auto") -> Tuple[Dict[st
     if mode == "attrs":
         defs = {key[2] for key, kinds in cur["kinds"].items() if kinds & {"func", "class"}}
         back = {k: v for k, v in back.items() if k not in defs}
+    elif mode.startswith("without:"):
+        # every accepted pair but the named ones (a function that was split can look like a rename of its larger half)
+        drop = set(mode[len("without:"):].split(","))
+        back = {k: v for k, v in back.items() if k not in drop}
+    diag["function_pairs"] = sorted(k for k in back if any(key[2] == k and kinds & {"func", "class"} for key, kinds in cur["kinds"].items()))
     if back:
         tr = _Rename(back)
         for t in trees.values():
